@@ -211,7 +211,7 @@ func init() {
 		},
 	})
 	// the system domain under one name per property (the driver evaluates that property's predicate)
-	for _, p := range []string{"C01", "C02", "C03", "C04", "C05", "C10", "C11", "C12", "C13"} {
+	for _, p := range []string{"C01", "C02", "C03", "C04", "C05", "C10", "C11", "C12", "C13", "C18"} {
 		name := "sys-" + p
 		register(name, domain{gen: func(out *proto.Out, rng *proto.Rng, tier string) { genSysNamed(name, out, rng, tier) },
 			run: func(raw json.RawMessage) (any, error) {
